@@ -495,6 +495,10 @@ func (e *zzEnv) leak(body []byte, allowedSource string) string {
 			return rel
 		}
 	}
+	// a listing that names the victim's served file
+	if n := e.vic + "/pub/note.txt"; bytes.Contains(body, []byte(`"`+n+`"`)) && !e.allowed("recv/serve/"+n, allowedSource) {
+		return "recv/serve/" + n + " (its name, in a listing)"
+	}
 	return ""
 }
 
@@ -523,11 +527,23 @@ func zzC14(e *zzEnv, rng *rand.Rand, n int, variant int) {
 		field := ""
 		data := []byte(fmt.Sprintf("attack-%d-%d", i, rng.Int63()))
 		sep := []string{"/", "/", "\\", "-", "..", "", "//"}[rng.Intn(7)]
-		kind := rng.Intn(10)
+		kind := rng.Intn(11)
+		if kind == 10 {
+			kind = 11
+		}
 		if e.noServe && rng.Intn(2) == 0 {
 			kind = 10
 		}
 		switch kind {
+		case 11:
+			// source names made of empty and dot segments only, or with such segments
+			// around a real name: whatever they are normalised to must not be the serve
+			// root or another source's directory
+			field = "static.dot-source"
+			s := []string{"./", "/", "./.", ".//", "/./", "//", "./" + e.att + "/..", e.att + "/.", "./" + e.att, e.att + "/", e.att + "//" + e.vic, "./" + e.vic}[rng.Intn(12)]
+			pth := []string{e.vic + "/pub/note.txt", "", e.vic, "pub/note.txt", e.att + "/pub/note.txt", "decoy-in-serve-root.txt"}[rng.Intn(6)]
+			method := []string{"GET", "GET", "DELETE"}[rng.Intn(3)]
+			r = &zzReq{Route: "static", Method: method, URL: "/static/" + pth, Headers: map[string]string{"X-STS-SrcName": s}}
 		case 10:
 			// no serve directory is configured: whatever the source name and path, there
 			// is nothing to list, read or delete - in particular not the receiver's own
